@@ -1,6 +1,9 @@
 #![no_std]
 mod backends;
 
+#[cfg(rustzx_verif)]
+extern crate alloc;
+
 pub use backends::AymPrecise;
 
 use core::fmt::Debug;
